@@ -290,6 +290,12 @@ class Gen:
                 g.mutable = True
                 f.avoid.add(g.name)
                 f.globals_declared.append(g)
+                others = [e for e in cands if e is not g and e not in f.globals_declared]
+                if others and self.b(1, 2):
+                    # a second name declared by the same function (it may share the statement: `global g, g2`)
+                    g2 = self.c(others)
+                    f.avoid.add(g2.name)
+                    f.globals_declared.append(g2)
                 return ("gassign", g, self.i(1, 5))
         if r == 10 and f.method_of is not None:
             cls = f.method_of
@@ -704,8 +710,17 @@ class Gen:
                 w.w("=%d" % default)
         w.w("):\n")
         inner = indent + "    "
-        for g in f.globals_declared:
-            w.w(inner + "global ").n(g.name, g.bid, "use").w("\n")
+        if len(f.globals_declared) > 1 and self.b(1, 2):
+            # one statement declaring several names
+            w.w(inner + "global ")
+            for k_, g in enumerate(f.globals_declared):
+                if k_:
+                    w.w(", ")
+                w.n(g.name, g.bid, "use")
+            w.w("\n")
+        else:
+            for g in f.globals_declared:
+                w.w(inner + "global ").n(g.name, g.bid, "use").w("\n")
         for st_ in f.body:
             self.render_stmt(w, m, f, st_, inner)
         w.w(inner + "return ")
